@@ -27,6 +27,7 @@ type PEngine struct {
 	inCallRange  map[*ssa.Function]bool
 	fieldInvs    map[string]*fieldInv
 	clauses      map[*ssa.Function][]clause
+	globNN       map[*ssa.Global]int
 	NonNegFields map[string]map[string]bool                // class -> excluded functions; fields assumed >= 0 once proven
 	NonNilIn     func(fn *ssa.Function, class string) bool // gating facts: field class is non-nil inside fn
 }
@@ -34,6 +35,7 @@ type PEngine struct {
 func NewPEngine(p *Prog, o *OEngine) *PEngine {
 	pe := &PEngine{P: p, O: o, funcs: map[*ssa.Function]*pfunc{}, post: map[*ssa.Function]*postCond{}, nonNilRes: map[*ssa.Function][]int{}, derefs: map[*ssa.Function][]bool{}, inCallRange: map[*ssa.Function]bool{}, fieldInvs: map[string]*fieldInv{}, clauses: map[*ssa.Function][]clause{}, NonNegFields: map[string]map[string]bool{}}
 	callRangeHook = pe.callRange
+	thePEngine = pe
 	return pe
 }
 
@@ -603,6 +605,27 @@ func (pf *pfunc) expandCallFacts(fs *factSet) {
 			continue
 		}
 		pf.applyPost(call, n, fs)
+		if strings.HasPrefix(call.name, "io.ReadFull") && len(call.args) == 2 && n.op == "extract" && n.name == "1" {
+			cnt := pf.mk("extract", types.Typ[types.Int], "0", token.ILLEGAL, call)
+			ln := pf.linOf(pf.mkLen(call.args[1]))
+			fs.add(fact{l: pf.linOf(cnt).sub(ln), why: "io.ReadFull: err == nil implies n == len(buf)"})
+			fs.add(fact{l: ln.sub(pf.linOf(cnt)), why: "io.ReadFull: err == nil implies n == len(buf)"})
+		}
+	}
+	// io.ReadFull: err != nil implies n < len(buf)
+	for i := 0; i < len(fs.facts); i++ {
+		f := fs.facts[i]
+		if f.nonil == "" {
+			continue
+		}
+		n := pf.byKey[f.nonil]
+		if n == nil || n.op != "extract" || n.name != "1" || n.args[0].op != "call" || !strings.HasPrefix(n.args[0].name, "io.ReadFull") || len(n.args[0].args) != 2 {
+			continue
+		}
+		call := n.args[0]
+		cnt := pf.mk("extract", types.Typ[types.Int], "0", token.ILLEGAL, call)
+		ln := pf.linOf(pf.mkLen(call.args[1]))
+		fs.add(fact{l: ln.sub(pf.linOf(cnt)).addConst(-1), why: "io.ReadFull: err != nil implies n < len(buf)"})
 	}
 }
 
@@ -761,8 +784,73 @@ func returnKinds(v ssa.Value) int {
 			k |= returnKinds(e)
 		}
 		return k
+	case *ssa.UnOp:
+		// load of a package-level error variable that is initialised once with a non-nil error
+		if g, ok := x.X.(*ssa.Global); ok && x.Op == token.MUL && thePEngine != nil && thePEngine.globalNonNil(g) {
+			return 2
+		}
 	}
 	return 3
+}
+
+// globalNonNil: the package-level variable is assigned only in its package initialiser, with
+// a value that is never nil (errors.New and friends, or a composite value).
+func (pe *PEngine) globalNonNil(g *ssa.Global) bool {
+	if pe.globNN == nil {
+		pe.globNN = map[*ssa.Global]int{}
+		stored := map[*ssa.Global][]ssa.Value{}
+		outside := map[*ssa.Global]bool{}
+		for _, pkg := range pe.P.SSA.AllPackages() {
+			for _, m := range pkg.Members {
+				fn, ok := m.(*ssa.Function)
+				if !ok {
+					continue
+				}
+				var fns []*ssa.Function
+				fns = append(fns, fn)
+				fns = append(fns, fn.AnonFuncs...)
+				for _, f := range fns {
+					for _, b := range f.Blocks {
+						for _, ins := range b.Instrs {
+							if st, ok := ins.(*ssa.Store); ok {
+								if gg, ok := st.Addr.(*ssa.Global); ok {
+									if f.Name() == "init" && f.Pkg == gg.Pkg {
+										stored[gg] = append(stored[gg], st.Val)
+									} else {
+										outside[gg] = true
+									}
+								}
+							}
+						}
+					}
+				}
+			}
+		}
+		// methods may also store globals
+		for _, f := range pe.O.fns {
+			for _, b := range f.Blocks {
+				for _, ins := range b.Instrs {
+					if st, ok := ins.(*ssa.Store); ok {
+						if gg, ok := st.Addr.(*ssa.Global); ok && !(f.Name() == "init" && f.Pkg == gg.Pkg) {
+							outside[gg] = true
+						}
+					}
+				}
+			}
+		}
+		for gg, vals := range stored {
+			ok := !outside[gg] && len(vals) > 0
+			for _, v := range vals {
+				if returnKinds(v) != 2 && !valueNeverNil(v) {
+					ok = false
+				}
+			}
+			if ok {
+				pe.globNN[gg] = 1
+			}
+		}
+	}
+	return pe.globNN[g] == 1
 }
 
 func valueNeverNil(v ssa.Value) bool {
@@ -780,9 +868,19 @@ func valueNeverNil(v ssa.Value) bool {
 		return true
 	case *ssa.ChangeType:
 		return valueNeverNil(x.X)
+	case *ssa.Call:
+		if thePEngine != nil && pointerLikeNilable(v.Type()) {
+			return !thePEngine.callResultNil(x, 0).maybe
+		}
+	case *ssa.Extract:
+		if c, ok := x.Tuple.(*ssa.Call); ok && thePEngine != nil && pointerLikeNilable(v.Type()) {
+			return !thePEngine.callResultNil(c, x.Index).maybe
+		}
 	}
 	return !pointerLikeNilable(v.Type())
 }
+
+var thePEngine *PEngine
 
 func pointerLikeNilable(t types.Type) bool {
 	switch t.Underlying().(type) {
@@ -937,10 +1035,14 @@ func (pf *pfunc) instantiate(sc *ssa.Function, ci *ssa.Call, conds []condAt, fs 
 				subst[p] = pf.get(ci.Call.Args[i])
 			}
 		}
+		allowed := map[string]bool{}
+		for _, a := range subst {
+			allowed[a.key] = true
+		}
 		pf.inlineDepth++
 		n := pf.numberAt(cd.v, at, subst)
 		pf.inlineDepth--
-		if containsOp(n, "opaque", 0) || containsOp(n, "call", 0) || containsOp(n, "lookup", 0) {
+		if containsOpExcept(n, allowed, 0, "opaque", "call", "lookup") {
 			continue
 		}
 		// check the callee does not kill what the condition loads
@@ -1008,6 +1110,29 @@ func (pf *pfunc) implicitFacts(atoms map[string]*vn, fs *factSet) {
 		}
 		if a.op == "phi" {
 			pf.inductionFacts(a, fs)
+		}
+		if a.op == "extract" && a.name == "0" && a.args[0].op == "call" && strings.HasPrefix(a.args[0].name, "io.ReadFull") && len(a.args[0].args) == 2 {
+			// contract of io.ReadFull: 0 <= n <= len(buf)
+			fs.add(fact{l: la, why: "io.ReadFull returns n >= 0"})
+			fs.add(fact{l: pf.linOf(pf.mkLen(a.args[0].args[1])).sub(la), why: "io.ReadFull returns n <= len(buf)"})
+		}
+		if a.op == "bin" && (a.tok == token.ADD || a.tok == token.SUB) && isIntType(a.typ) && !pf.noOverflow(a) && !pf.inQuot {
+			// narrow (8/16 bit) or unsigned-subtraction arithmetic: exact when the facts show no wrap
+			x, y := pf.linOf(a.args[0]), pf.linOf(a.args[1])
+			exact := x.add(y)
+			if a.tok == token.SUB {
+				exact = x.sub(y)
+			}
+			lo, hi, ok := intTypeRange(a.typ)
+			if ok {
+				pf.inQuot = true
+				fits := pf.prove(exact.sub(linConst(lo)), fs) && pf.prove(linConst(hi).sub(exact), fs)
+				pf.inQuot = false
+				if fits {
+					fs.add(fact{l: la.sub(exact), why: "arithmetic does not wrap"})
+					fs.add(fact{l: exact.sub(la), why: "arithmetic does not wrap"})
+				}
+			}
 		}
 		if a.op == "load" {
 			if ex, ok := pf.P.NonNegFields[a.name]; ok {
@@ -1553,10 +1678,14 @@ func (pf *pfunc) applyClauses(sc *ssa.Function, ci *ssa.Call, fs *factSet) {
 				subst[p] = pf.get(ci.Call.Args[i])
 			}
 		}
+		allowed := map[string]bool{}
+		for _, a := range subst {
+			allowed[a.key] = true
+		}
 		pf.inlineDepth++
 		n := pf.numberAt(cd.v, at, subst)
 		pf.inlineDepth--
-		if containsOp(n, "call", 0) || containsOp(n, "lookup", 0) {
+		if containsOpExcept(n, allowed, 0, "call", "lookup") {
 			return nil
 		}
 		if sum != nil && loadsKilledBy(pf, n, sum, 0) {
@@ -1677,4 +1806,23 @@ func (pf *pfunc) translateCond(sc *ssa.Function, lit condAt, translate func(cond
 		return nil
 	}
 	return out
+}
+
+// containsOpExcept: does n contain a node with one of the ops, not counting sub-terms that
+// are (parts of) the caller-side arguments?
+func containsOpExcept(n *vn, allowed map[string]bool, depth int, ops ...string) bool {
+	if n == nil || depth > 14 || allowed[n.key] {
+		return false
+	}
+	for _, op := range ops {
+		if n.op == op {
+			return true
+		}
+	}
+	for _, a := range n.args {
+		if containsOpExcept(a, allowed, depth+1, ops...) {
+			return true
+		}
+	}
+	return false
 }
